@@ -247,6 +247,40 @@ theorem old_blocks : ¬ C13_never_blocks false := by
   rw [old_blocks_witness] at this
   cases this
 
+/-- **3d. a request id that is registered AGAIN** (a later incarnation `h` of id `r`: duplicate chain event,
+or an id re-used after the first pipeline completed / was cancelled / is still running).  `h` is new
+before its registration (`es₁`: any history, earlier incarnations of `r` included) and afterwards
+undisturbed (`es₂`).  Then `h` receives exactly: what the buffer of `r` holds at that moment – a sublist
+of the shares that arrived for `r` so far, EMPTY whenever an earlier incarnation is still registered
+(swept or not, live or done) – followed by every share arriving for `r` after its registration, in
+order.  So no share is handed over twice across incarnations, none that did not arrive for the id `r`;
+the collector routes BY ID ONLY: a share of the earlier incarnation that arrives late does reach the
+later one, and it is the stage that counts it only if its content and type are the pipeline's own
+(`Query.accepts`, `Props.C01.report_valid`: the F18 guard) – checked on the real loop with the real
+`recoverSign` by the `inc` cases (oracle `foreign-content-counted`).  What the property cannot promise
+for a re-used id, and the code does not do: shares arriving while the EARLIER incarnation holds the
+registration go to it (or are dropped when its context is done, until the watchdog sweeps it). -/
+theorem later_incarnation_served (es₁ es₂ : List Ev) (h : Nat) (r : Rid)
+    (hfresh : ∀ r', Ev.register h r' ∉ es₁) (hcan : Ev.cancel h ∉ es₁) (hq : Quiet h r es₂) :
+    deliveries (es₁ ++ Ev.register h r :: es₂) h = (run init es₁).1.buf r ++ arrivalsFor r es₂
+    ∧ ((run init es₁).1.buf r).Sublist (arrivalsFor r es₁)
+    ∧ ((run init es₁).1.reg r ≠ none → (run init es₁).1.buf r = []) := by
+  obtain ⟨f1, f2, f3⟩ := fresh_phase h es₁ init (by simp [init]) rfl hfresh hcan
+  have g1 : Good (run init es₁).1 := good_run es₁ init good_init
+  refine ⟨?_, by simpa [init] using buf_sublist r es₁ init, g1.regEmpty r⟩
+  rw [deliveries_eq, run_append, run_cons]
+  simp only [deliv_append, f3, List.nil_append]
+  have hB : deliv (step (run init es₁).1 (.register h r)).2 h = (run init es₁).1.buf r := by
+    simp [step, f2, deliv_map_self]
+  have hC := phase_after h r es₂ (step (run init es₁).1 (.register h r)).1
+    (by simp [step, upd])
+    (by intro r' hr'
+        by_cases hrr : r' = r
+        · exact hrr
+        · simp [step, upd, hrr] at hr'; exact absurd hr' (f1 r'))
+    (by simp [step, f2]) hq
+  rw [hB, hC]
+
 /-- **4. the buffer is cleared by the registration** (no double delivery by a later flush) … -/
 theorem buffer_cleared (es : List Ev) (h : Nat) (r : Rid) :
     (run init (es ++ [Ev.register h r])).1.buf r = [] := by
@@ -358,5 +392,16 @@ example : (((outputs [.arrive (sh 1 0), .register 7 [1], .arrive (sh 1 2), .canc
       .arrive (sh 1 6)]) := delivered_sublist _ _
 example : ((outputs [.arrive (sh 1 0), .register 7 [1], .arrive (sh 1 2), .cancel 7, .arrive (sh 1 4), .register 9 [1],
       .arrive (sh 1 6)]).map (·.2)) = [sh 1 0, sh 1 2, sh 1 6] := by decide
+
+/-- `later_incarnation_served`: instance 7 completes (cancel), a share arrives late and is dropped, instance 9
+registers the same id and gets exactly what arrives afterwards; with the earlier incarnation swept by the
+watchdog first, the late share is buffered and handed to instance 9 -/
+example : deliveries ([.register 7 [1], .arrive (sh 1 1), .cancel 7, .arrive (sh 1 3)] ++ Ev.register 9 [1] :: [.arrive (sh 1 5)]) 9
+    = (run init [.register 7 [1], .arrive (sh 1 1), .cancel 7, .arrive (sh 1 3)]).1.buf [1] ++ arrivalsFor [1] [.arrive (sh 1 5)] :=
+  (later_incarnation_served _ _ 9 [1] (by intro r' hm; simp at hm) (by decide)
+    ⟨by intro h' r' hm; simp at hm, by decide⟩).1
+example : deliveries [.register 7 [1], .arrive (sh 1 1), .cancel 7, .arrive (sh 1 3), .register 9 [1], .arrive (sh 1 5)] 9 = [sh 1 5]
+    ∧ deliveries [.register 7 [1], .arrive (sh 1 1), .cancel 7, .watchdog, .arrive (sh 1 4), .register 9 [1], .arrive (sh 1 6)] 9
+      = [sh 1 4, sh 1 6] := by decide
 
 end Dos.Props.C13
